@@ -106,9 +106,11 @@ pub fn record(args: &[String]) {
     }
     // ---- average (Field128) ----
     for &n in &small_naggs {
-        for max in [1u128, 255, 1 << 32, u64::MAX as u128, (1 << 100) + 5] {
-            // batch whose mean is an integer so that the f64 result can be multiplied back exactly for small values
-            let meas: Vec<u128> = if max == 1 { vec![1, 1, 0, 0] } else { vec![0, max, max / 2, max / 2 + (max % 2)] };
+        let p128m = ((1u128 << 127) - (7u128 << 65)) * 2; // p - 1 = 2^128 - 7*2^66
+        for max in [1u128, 255, 1 << 32, u64::MAX as u128, (1 << 100) + 5, (1 << 126) + 1, 1 << 127, p128m] {
+            // batches whose sums sit at 2^k edges: below 2^64, between 2^64 and 2^127, and in [2^127, p)
+            let meas: Vec<u128> = if max == 1 { vec![1, 1, 0, 0] } else if max >= 1 << 126 { if n == 2 { vec![max] } else { vec![max.min(1 << 127), 1, 2, 3] } }
+                                  else { vec![0, max, max / 2, max / 2 + (max % 2)] };
             let plain: BigUint = meas.iter().map(|m| b(*m)).sum();
             let plain2 = plain.clone();
             let r = guarded(|| Prio3::new_average(n, max).map_err(|e| format!("new: {e}")).and_then(|v| {
